@@ -13,4 +13,9 @@ if [ "$tier" = "--replay" ]; then
   # re-evaluate the property the report belongs to, on the current tree
   tier=$(jq -r .tier "$2" 2>/dev/null || echo quick)
 fi
-exec "$BIN" -repo /repo -verif /verif -prop "$id" -tier "$tier"
+"$BIN" -repo /repo -verif /verif -prop "$id" -tier "$tier"
+rc=$?
+if [ "$tier" = "thorough" ] && [ $rc -ne 2 ]; then
+  ./thorough_extras.py "$id" || true
+fi
+exit $rc
